@@ -198,8 +198,9 @@ def arith(F, res, cg, reach):
 
 
 def clamps(F, res, reach):
+    from ..common import row_lookup
     rows = {r["key"]: r["reason"] for r in table("e4_rows")["clamps"]}
-    n = 0
+    sites = []
     for p in sorted(reach):
         f = F.built.get(p, F.fns[p])
         if is_derive(f):
@@ -208,28 +209,31 @@ def clamps(F, res, reach):
             c = t.get("callee") or ""
             last = c.split("::")[-1]
             if last.startswith(("saturating_", "wrapping_")) or last == "clamp" or (last in ("min", "max") and c.startswith("std::cmp::Ord::")):
-                n += 1
-                key = "%s|%s" % (p, last)
-                w = where(f, t["line"])
-                if key in rows:
-                    res.add([ok("CLAMP", key, w, "D-TABLE: " + rows[key])])
-                else:
-                    res.add([finding("CLAMP", key, w, "`%s` on the quantity path clamps or wraps a value instead of failing" % last)])
-    res.count("clamp/wrap calls", n)
+                sites.append(("%s|%s" % (p, last), where(f, t["line"]), last))
+    look = row_lookup(rows, {k for k, _, _ in sites})
+    for key, w, last in sites:
+        r = look(key)
+        if r:
+            res.add([ok("CLAMP", key, w, "D-TABLE: " + r[0] + (" (row relocated from %s)" % r[1] if r[1] else ""))])
+        else:
+            res.add([finding("CLAMP", key, w, "`%s` on the quantity path clamps or wraps a value instead of failing" % last)])
+    res.count("clamp/wrap calls", len(sites))
 
 
 def floats(F, res, reach):
     """a quantity (up to 128 bits) never passes through a float on the quantity path; the functions that only *rank* candidates
     with floats are tabled (their result orders candidates, no amount flows out of them)"""
-    from ..common import float_sites
+    from ..common import float_sites, row_lookup
     rows = {r["key"]: r["reason"] for r in table("e4_rows").get("floats", [])}
     by_fn = {}
     for f, line, what in float_sites(F, reach):
         by_fn.setdefault(f["path"], (f, line, []))[2].append(what)
+    look = row_lookup(rows, {"%s|floating point" % p for p in by_fn})
     for p, (f, line, whats) in sorted(by_fn.items()):
         key = "%s|floating point" % p
-        if key in rows:
-            res.add([ok("FLOAT", key, where(f, line), "D-TABLE: " + rows[key])])
+        r = look(key)
+        if r:
+            res.add([ok("FLOAT", key, where(f, line), "D-TABLE: " + r[0] + (" (row relocated from %s)" % r[1] if r[1] else ""))])
         else:
             res.add([finding("FLOAT", key, where(f, line), "%s uses floating point on the quantity path (%s): values beyond 2^53 are rounded" % (p.split("::")[-1], "; ".join(sorted(set(whats))[:3])))])
     res.count("functions using floating point on the quantity path", len(by_fn))
